@@ -580,6 +580,9 @@ class Folder:
         host5 = self.host_triple + ("final", 0)
         if module == "copy" and name in ("deepcopy", "copy"):
             return getattr(copy, name)
+        if module == "operator" and name in ("itemgetter", "attrgetter", "add", "sub", "mul", "and_", "or_", "lt", "le", "gt", "ge", "eq", "ne", "index"):
+            import operator
+            return getattr(operator, name)
         if module == "struct":
             return getattr(struct, name)
         if module == "re":
